@@ -458,7 +458,10 @@ def _run_case(tree, version, allow, kind, mech, spelling):
         how = 'admitted'
     else:
         how = 'denied'
-        if not reported:
+        # a hint for a namespace that the processor already owns (hint-xmlns: the XML namespace of the meta-schema)
+        # may be ignored without notice, like any hint for an already loaded namespace: such a location is never
+        # consulted, hence not "denied"; what is judged there is that nothing is fetched and nothing influences
+        if not reported and mech != 'hint-xmlns':
             disc('silent', "allow=%r denies %r (class '%s') reached by %s, but nothing reports it: no exception, no "
                  'warning, no missing location' % (allow, spelling, target_cls, mech))
     if raised is not None:
